@@ -76,6 +76,12 @@ def run_tlc(module, cfg_text, env=None, workers=1, timeout=900, extra=(), xmx='3
     m = _DEPTH_RE.search(out)
     if m:
         res['depth'] = int(m.group(1))
+    if coverage:
+        acts = {}
+        for m in re.finditer(r'^<(\w+) line \d+, col \d+ to line \d+, col \d+ of module (\w+)[^>]*>: (\d+):(\d+)', out, re.M):
+            name = m.group(1)
+            acts[name] = [acts.get(name, [0, 0])[0] + int(m.group(3)), acts.get(name, [0, 0])[1] + int(m.group(4))]
+        res['actions'] = acts
     res['ok'] = (rc == 0 and 'Error:' not in out)
     if not keep:
         shutil.rmtree(d, ignore_errors=True)
